@@ -25,7 +25,8 @@ RULE = ("seeded simple loop-free graphs with 1..9 vertices (thorough ..11) incl.
         "(vertex and edge counts unchanged); shuffle schedules uniform/identity/reverse/"
         "rotation/adjacent swaps; aborts mid-shuffle then a new cover; non-trivial = graph has >= 2 edges; distinct = "
         "distinct execution digests; 12% of the runs relabel the vertices by singleton frozensets (not totally ordered), tuples, strings or "
-        "ints and strings side by side (cover mapped back and judged by the same oracle); run indexes 1000-2251 walk through EVERY graph with an edge on up to 7 vertices (graph atlas); 0.4% of runs: a complete graph of 12-16 vertices plus a pendant edge; thorough tier only: one "
+        "ints and strings side by side (cover mapped back and judged by the same oracle); 8% add one or two vertices whose label is the tuple of an edge's or a "
+        "triangle's vertices; run indexes 1000-2251 walk through EVERY graph with an edge on up to 7 vertices (graph atlas); 0.4% of runs: a complete graph of 12-16 vertices plus a pendant edge; thorough tier only: one "
         "cycle of 6e5 vertices (more than a million trivial cliques) and one 21-/22-clique with a triangle and a pendant edge "
         "attached (2-4 million nested cliques, limit 0 / 100 / 2^31) per invocation; both tiers: one graph of more than 2^20 vertices (almost all isolated, small "
         "cliques at low positions, beyond 2^20 and across, incl. pairs that alias under a 20-bit packing of positions)")
